@@ -402,12 +402,14 @@ def render_ops(tr):
         # client: every record is an append, except the record right before a root write,
         # which is the head-set record of a commit (fc is read from the root record).
         heads_rec = {c["nrec"] - 1: c for c in tr.commits}
-        file_of = None
+        # a reopen happened where the workload says so (the mark of an `r` op); the identity of the
+        # open file in the trace is an address that the allocator may reuse, so it is not used
+        reopen_marks = [i for i, e in enumerate(tr.ev) if e["k"] == "M" and e["tag"] < len(tr.ops) and tr.ops[e["tag"]] == "r"]
+        last_first = -1
         for idx, rec in enumerate(tr.records):
-            f = tr.ev[rec["first"]]["file"]
-            if file_of is not None and f != file_of:
+            if any(last_first < mi < rec["first"] for mi in reopen_marks):
                 out.append("SR")
-            file_of = f
+            last_first = rec["first"]
             if idx in heads_rec:
                 c = heads_rec[idx]
                 fc = c["root"]["fc"] if c["root"] and c["root"]["fc"] is not None else 0
